@@ -95,7 +95,7 @@ def run(ctx):
                rule="R1: spec/HandshakeImpl.tla (client loop, errc channel, serve goroutine, peer, timer as nondeterministic step) exhaustively for MaxRetransmits 2 and 4 peer messages; "
                     "R2: every budget x {success after the k-th CER, failing code, malformed (no Result-Code / no Origin-Host), success without / with unsupported applications, silence, disconnect after the k-th CER} "
                     "x extras after completion (duplicate success, late failure, late malformed; sequences up to the bound) followed by an application answer; replayed on a real sm.Client over memnet with a count-driven peer (40 ms interval). "
-                    "non-trivial = a retransmission, a failure or an extra answer; distinct by script Since extended: CEAs whose only application is in a Vendor-Specific-Application-Id group or is the relay id; another connection of the same client whose peer repeats its CEA during the dial; an extra, locally unsupported application in the client's configuration; link-local local addresses; the answer arriving while the next transmission is still being written; Origin-State-Id / Firmware-Revision / Vendor-Id / Product-Name in the CER.",
+                    "non-trivial = a retransmission, a failure or an extra answer; distinct by script Since extended: CEAs whose only application is in a Vendor-Specific-Application-Id group or is the relay id; another connection of the same client whose peer repeats its CEA during the dial; an extra, locally unsupported application in the client's configuration; link-local local addresses; the answer arriving while the next transmission is still being written; Origin-State-Id / Firmware-Revision / Vendor-Id / Product-Name in the CER; a client with a dictionary of its own (private application / application only dict.Default knows); the at-th transmission refused by a healthy transport; an application advertised both plainly and in a vendor-specific group.",
                samples=[dict(script=l["script"], obs={k: l["obs"][k] for k in ("ncer", "mingap", "dial_ok", "errclass", "closed_end", "app_dispatched")}) for l in lines[0:len(lines):max(1, len(lines) // 3)]][:3],
                exhaustive=True, r1_states=r1["distinct"], rejected=len(bad), impl_conformance=conf, inductive_invariant=ind, known_finding_hits={k: n for k, (n, _) in v.hits.items()})
     rc = v.finish()
